@@ -312,3 +312,178 @@ def correspondence(ctx, cases, fixed):
         ctx.failed_stages.append(('correspondence', 'model disagrees with the front-end on %d cases, first: %r'
                                   % (len(bad), recs[bad[0]])))
     return bad
+
+
+# ------------------------------------------------------------------ search: implementation vs independent oracle
+KNOWN_TYPING = [   # outside the proved fragment: ppci's common type / promotion is not C's (DESIGN §6 item 25, C01)
+    ('x86_64', 'int g = (-1ll) < 1ul;', 'get_common_type(long long, unsigned long) = long long on LP64 (C: unsigned long long)'),
+    ('arm', 'int g = (-1l) < 1u;', 'get_common_type(long, unsigned int) = long on ILP32 (C: unsigned long)'),
+    ('msp430', 'int g = ((unsigned short)65535u) > 0;', 'promote(unsigned short) = int where int is 16 bit (C: unsigned int)'),
+]
+KNOWN_EXPECT = {'int g = (-1ll) < 1ul;': 0, 'int g = (-1l) < 1u;': 0, 'int g = ((unsigned short)65535u) > 0;': 1}
+
+
+def check_one(ctx, march, t, e, src, stats):
+    """implementation vs oracle on one program; returns True when it was a defined, compared case"""
+    dm, _, little = target_dm(march)
+    v = S.ev(dm, e)
+    if v is None:
+        stats['undefined'] += 1
+        return False
+    exp = spec_bytes(dm, little, t, v)
+    _, out, detail = front_end(march, src)
+    ctx.cov['evaluations'] += 1
+    if isinstance(out, OkV) and out.v == exp:
+        stats['agree'] += 1
+        return True
+    actual = out.v.hex() if isinstance(out, OkV) else detail
+    infrag = S.sema_agrees(dm, e)
+    rec = {'fn': 'c_to_ir global initializer' if infrag else 'expression typing (get_common_type/promote)',
+           'args': [march, src], 'expected': exp.hex(), 'actual': actual,
+           'expected_value': S.convert(dm, t, v), 'in_proved_fragment': infrag,
+           'how_to_replay': "PYTHONPATH=%s /venv/bin/python -c \"import io; from ppci.api import c_to_ir; "
+                            "m = c_to_ir(io.StringIO('%s'), '%s'); print([v.value for v in m.variables])\""
+                            % (REPO, src, march)}
+    if infrag:
+        stats['violations'] += 1
+        ctx.violation(rec)
+    else:
+        stats['typing_deviation'] += 1
+        rec['key'] = 'typing'
+        rec['class'] = 'outside-fragment'
+        ctx.violation(rec)
+    return True
+
+
+def search(ctx, cases=None):
+    stats = {'agree': 0, 'undefined': 0, 'violations': 0, 'typing_deviation': 0, 'witnesses': 0}
+    # the witnesses of the fixed defects are re-executed on every run
+    for march in TARGETS:
+        dm, _, little = target_dm(march)
+        umax = (1 << dm['int']) - 1
+        wit = FIXED_WITNESSES + [('unsigned arithmetic not reduced modulo 2^N (UINT_MAX + 1)', 'llong',
+                                  ('bin', '+', ('lit', 'uint', umax), ('lit', 'uint', 1)))]
+        for what, t, e in wit:
+            src = '%s g = %s;' % (S.C_T[t], S.render(dm, e))
+            stats['witnesses'] += 1
+            check_one(ctx, march, t, S.desugar(dm, e), src, stats)
+    # known typing deviations outside the proved fragment: re-executed, reported while they still fail
+    for march, src, what in KNOWN_TYPING:
+        dm, _, little = target_dm(march)
+        _, out, detail = front_end(march, src)
+        exp = spec_bytes(dm, little, 'int', KNOWN_EXPECT[src])
+        if not (isinstance(out, OkV) and out.v == exp):
+            ctx.violation({'fn': 'expression typing (get_common_type/promote)', 'class': 'outside-fragment',
+                           'key': 'typing', 'args': [march, src], 'expected': exp.hex(),
+                           'actual': out.v.hex() if isinstance(out, OkV) else detail, 'what': what})
+    deep = (not ctx.quick()) or bool(ctx.failed_stages)
+    if cases is None:
+        cases = gen_cases(ctx, 700 if deep else 120, 5)
+    nontriv = set()
+    for (march, t, e, src) in cases:
+        if check_one(ctx, march, t, e, src, stats) and S.size(e) > 1:
+            nontriv.add((march, t, src))
+    # uses other than global initializers: enumerator values, array sizes, case labels (same evaluator)
+    for march in TARGETS:
+        dm, _, little = target_dm(march)
+        for k in range(60 if deep else 12):
+            e = S.gen_defined(ctx.rng, dm, 3, types=['int', 'uint', 'long'], small=True)
+            d = S.desugar(dm, e)
+            v = S.ev(dm, d)
+            if v is None or not S.sema_agrees(dm, d):
+                continue
+            c = S.render(dm, e)
+            progs = []
+            if S.fits(dm, 'int', v):
+                progs.append(('enum', 'enum E { A = %s }; int g = A;' % c, spec_bytes(dm, little, 'int', v)))
+                progs.append(('case', 'int f(int x) { switch (x) { case %s: return 1; default: return 0; } } int g = 1;' % c,
+                              spec_bytes(dm, little, 'int', 1)))
+            if 1 <= v <= 64:
+                progs.append(('array', 'char a[%s]; int g = sizeof(a);' % c, spec_bytes(dm, little, 'int', v)))
+            for kind, src, exp in progs:
+                _, out, detail = front_end(march, src)
+                ctx.cov['evaluations'] += 1
+                if not (isinstance(out, OkV) and out.v == exp):
+                    stats['violations'] += 1
+                    ctx.violation({'fn': 'constant expression as ' + kind, 'args': [march, src], 'expected': exp.hex(),
+                                   'actual': out.v.hex() if isinstance(out, OkV) else detail})
+                else:
+                    stats['agree'] += 1
+    ctx.cov['distinct_nontrivial'] += len(nontriv)
+    ctx.cov['stages']['search'] = stats
+    return cases
+
+
+def spec_cross_check(ctx, cases):
+    """the Python oracle used by the search equals the Coq Spec (value and type) on the generated trees"""
+    cc = []
+    for (march, t, e, src) in cases:
+        dm, _, _ = target_dm(march)
+        cdm = S.coq_dm(dm)
+        cc.append(('eval %s %s' % (cdm, S.coq_expr(e)), S.ev(dm, e)))
+        cc.append(('ity_tag (type_of %s %s)' % (cdm, S.coq_expr(e)), S.TYPES.index(S.type_of(dm, e))))
+        cc.append(('sema_agrees %s %s' % (cdm, S.coq_expr(e)), S.sema_agrees(dm, e)))
+    bad = ctx.run_cases('spec', ['Spec.CIntSpec', 'Model.CEval', 'Model.CSema'], cc)
+    if bad:
+        ctx.log('Python oracle and Coq Spec disagree on', [cases[i // 3][3] for i in bad[:3]])
+        ctx.failed_stages.append(('oracle', 'tools/props/cintspec.py disagrees with Spec/CIntSpec.v on %d cases' % len(bad)))
+
+
+def gcc_validation(ctx, n):
+    """the spec reading itself against gcc (LP64): value, sizeof and signedness of the type"""
+    dm = S.DM_LP64
+    es = [S.gen_defined(ctx.rng, dm, 4) for _ in range(n)]
+    try:
+        vals = S.gcc_values([S.render(dm, e) for e in es])
+    except (OSError, Exception) as ex:   # noqa: BLE001
+        ctx.log('gcc oracle unavailable:', ex)
+        return
+    bad = []
+    for e, g in zip(es, vals):
+        d = S.desugar(dm, e)
+        t = S.type_of(dm, d)
+        exp = (S.convert(dm, 'llong', S.ev(dm, d)), S.nbits(dm, t) // 8, int(S.signed(dm, t)))
+        if g != exp:
+            bad.append((S.render(dm, e), exp, g))
+    ctx.cov['stages']['gcc_validation_of_spec'] = {'expressions': n, 'disagreements': len(bad)}
+    ctx.cov['evaluations'] += n
+    if bad:
+        ctx.log('spec oracle disagrees with gcc:', bad[:3])
+        ctx.failed_stages.append(('spec_validation', 'CIntSpec disagrees with gcc on %r' % (bad[0],)))
+
+
+def run(ctx):
+    fixed = is_fixed_tree()
+    ctx.cov['stages']['tree'] = 'fixed (fixes/C27-*.diff applied)' if fixed else 'UNFIXED evaluator'
+    regen(ctx)            # TieBroken on the unfixed tree (c_div/c_rem/c_wrap missing) -> driver calls search()
+    ok, _ = ctx.build(['Proofs/C27_ceval.vo'])
+    if ok:
+        ctx.check_props('Props/C27.v')
+    deep = not ctx.quick()
+    cases = gen_cases(ctx, 500 if deep else 110, 5)
+    if ctx.build(['Model/CSema.vo', 'Model/CEvalOrig.vo', 'Lib/Val.vo'])[0]:
+        correspondence(ctx, cases, True)
+        spec_cross_check(ctx, cases[:: 2])
+    for c in cases[:: max(1, len(cases) // 8)]:
+        ctx.note_sample({'target': c[0], 'program': c[3]})
+    gcc_validation(ctx, 400 if deep else 80)
+    search(ctx, cases if not deep else None)
+    ctx.cov['exhaustive'] = False
+
+
+MANIFEST = {
+    'text': 'proof (partial in one stated respect): unbounded Coq theorems that the constant-expression evaluator of '
+            'ppci/lang/c/eval.py (with fixes/C27-operators, C27-convert, C27-sema-promotions applied) returns exactly the '
+            'C11 value (truncating / and %, shifts, bitwise, comparisons, && || ! ?:, casts, integer promotions, usual '
+            'arithmetic conversions, wrap of unsigned results) and that `T g = e;` is packed as the object representation '
+            'of the value converted to T, for every data model and every expression on which ppci\'s typing coincides with '
+            'C typing (sema_agrees; exceptions enumerated by theorems: ulong x llong on LP64, uint x long on ILP32, '
+            'unsigned short where int is 16 bit). The defects of the previous evaluator are recorded as refuted theorems '
+            'with witnesses (7 % 3, 1 < 2, -7 / 2, UINT_MAX + 1u, unsigned char g = 300).',
+    'note': 'trusted: Coq kernel; py2coq + op_map extractor (helpers and operator lambdas regenerated from eval.py per run); '
+            'hand models of eval_expr/pack (Model/CEval.v) and of CSemantics typing (Model/CSema.v), cross-checked per run '
+            'against the real typed AST and the real global image; the reading of C11 in Spec/CIntSpec.v (validated against '
+            'gcc on LP64 per run). Not modelled: sizeof, enum constants, floats, pointers/addresses in initializers; '
+            'enumerators, array sizes and case labels are covered by search only. No axioms.',
+    'technique': 'Coq proof over regenerated operator tables + hand model with differential correspondence',
+}
